@@ -11,6 +11,7 @@ from geoh5py.ui_json.validation import InputValidation
 from geoh5py.ui_json.enforcers import EnforcerPool, TypeEnforcer, ValueEnforcer
 from geoh5py.ui_json.parameters import (Parameter, StringParameter, IntegerParameter, BoolParameter,
                                          ValueRestrictedParameter, TypeRestrictedParameter)
+from geoh5py.ui_json.forms import StringFormParameter, BoolFormParameter, IntegerFormParameter
 from geoh5py.shared.validators import TypeValidator, ValueValidator, OptionalValidator, RequiredValidator, ShapeValidator
 from geoh5py.shared.exceptions import BaseValidationError
 
@@ -216,6 +217,93 @@ def parameter_restricted_stateless_and_rejection_keeps_value(i0: int, i1: int, i
     return assign(p, v2) == assign(fresh, v2)
 ''', "Parameter (restricted): a rejected assignment leaves the stored value unchanged and the verdict does not depend on history"),
 
+    Cond("form_string_member_rejection_leaves_form_unchanged", '''
+def form_string_member_rejection_leaves_form_unchanged(mi: int, i1: int, i2: int) -> bool:
+    """
+    pre: 0 <= mi < 6 and 0 <= i1 < 8 and i2 == i1
+    post: _
+    """
+    kind = 0
+    member = ["optional", "enabled", "group", "dependency", "tooltip", "main"][mi]
+    mk = [lambda: StringFormParameter("p", value="x", label="l"), lambda: BoolFormParameter("p", value=True, label="l"),
+          lambda: IntegerFormParameter("p", value=1, label="l")][kind]
+    v1, v2 = ALPHA[i1], ALPHA[i2]
+    def assign(f, v):
+        try:
+            setattr(f, member, v)
+            return True
+        except BaseValidationError:
+            return False
+    used = mk()
+    before_form, before_active = dict(used.form()), list(used.active)
+    ok1 = assign(used, v1)
+    if not ok1 and (dict(used.form()) != before_form or list(used.active) != before_active):
+        return False                      # a rejected member assignment changed the form
+    if ok1 and not (member in used.active and used.form()[member] == v1):
+        return False
+    fresh = mk()
+    return assign(used, v2) == assign(fresh, v2)
+''', "FormParameter (string): a rejected member assignment leaves form() and the active members unchanged; accepted ones are stored; "
+     "the verdict does not depend on earlier assignments", timeout=90),
+
+    Cond("form_bool_member_rejection_leaves_form_unchanged", '''
+def form_bool_member_rejection_leaves_form_unchanged(mi: int, i1: int, i2: int) -> bool:
+    """
+    pre: 0 <= mi < 6 and 0 <= i1 < 8 and i2 == i1
+    post: _
+    """
+    kind = 1
+    member = ["optional", "enabled", "group", "dependency", "tooltip", "main"][mi]
+    mk = [lambda: StringFormParameter("p", value="x", label="l"), lambda: BoolFormParameter("p", value=True, label="l"),
+          lambda: IntegerFormParameter("p", value=1, label="l")][kind]
+    v1, v2 = ALPHA[i1], ALPHA[i2]
+    def assign(f, v):
+        try:
+            setattr(f, member, v)
+            return True
+        except BaseValidationError:
+            return False
+    used = mk()
+    before_form, before_active = dict(used.form()), list(used.active)
+    ok1 = assign(used, v1)
+    if not ok1 and (dict(used.form()) != before_form or list(used.active) != before_active):
+        return False                      # a rejected member assignment changed the form
+    if ok1 and not (member in used.active and used.form()[member] == v1):
+        return False
+    fresh = mk()
+    return assign(used, v2) == assign(fresh, v2)
+''', "FormParameter (bool): a rejected member assignment leaves form() and the active members unchanged; accepted ones are stored; "
+     "the verdict does not depend on earlier assignments", timeout=90),
+
+    Cond("form_integer_member_rejection_leaves_form_unchanged", '''
+def form_integer_member_rejection_leaves_form_unchanged(mi: int, i1: int, i2: int) -> bool:
+    """
+    pre: 0 <= mi < 6 and 0 <= i1 < 8 and i2 == i1
+    post: _
+    """
+    kind = 2
+    member = ["optional", "enabled", "group", "dependency", "tooltip", "main"][mi]
+    mk = [lambda: StringFormParameter("p", value="x", label="l"), lambda: BoolFormParameter("p", value=True, label="l"),
+          lambda: IntegerFormParameter("p", value=1, label="l")][kind]
+    v1, v2 = ALPHA[i1], ALPHA[i2]
+    def assign(f, v):
+        try:
+            setattr(f, member, v)
+            return True
+        except BaseValidationError:
+            return False
+    used = mk()
+    before_form, before_active = dict(used.form()), list(used.active)
+    ok1 = assign(used, v1)
+    if not ok1 and (dict(used.form()) != before_form or list(used.active) != before_active):
+        return False                      # a rejected member assignment changed the form
+    if ok1 and not (member in used.active and used.form()[member] == v1):
+        return False
+    fresh = mk()
+    return assign(used, v2) == assign(fresh, v2)
+''', "FormParameter (integer): a rejected member assignment leaves form() and the active members unchanged; accepted ones are stored; "
+     "the verdict does not depend on earlier assignments", timeout=90),
+
     Cond("validate_data_stateless_one_of", '''
 def validate_data_stateless_one_of(a1: Optional[int], b1: Optional[int], a2: Optional[int], b2: Optional[int]) -> bool:
     """
@@ -272,7 +360,8 @@ def optional_required_shape_validators_exact(value: Val, as_list: bool, optional
 def _thorough_variants():
     out = []
     for c in CONDS:
-        if c.name in ("enforcer_pool_stateless", "parameter_restricted_stateless_and_rejection_keeps_value", "value_validator_exact"):
+        if c.name in ("enforcer_pool_stateless", "parameter_restricted_stateless_and_rejection_keeps_value", "value_validator_exact") \
+                or c.name.endswith("member_rejection_leaves_form_unchanged"):
             src = c.src.replace("i2 == i1", "0 <= i2 < 8").replace("j1 == 6", "0 <= j1 < 8")
             src = src.replace(f"def {c.name}(", f"def {c.name}_full(")
             out.append(Cond(c.name + "_full", src, c.what + " (all triples of the alphabet)", timeout=400))
@@ -310,5 +399,6 @@ def main(tier, seed):
                    "geoh5py.ui_json.validation:InputValidation._validations_from_uijson / validate / validate_data",
                    "geoh5py.shared.validators:TypeValidator/ValueValidator/OptionalValidator/RequiredValidator/ShapeValidator/AtLeastOneValidator",
                    "geoh5py.ui_json.enforcers:EnforcerPool.enforce/_capture_error/_raise_errors, TypeEnforcer, ValueEnforcer",
-                   "geoh5py.ui_json.parameters:Parameter.value / validate and subclasses"],
+                   "geoh5py.ui_json.parameters:Parameter.value / validate and subclasses",
+                   "geoh5py.ui_json.forms:FormParameter member access (descriptors.FormValueAccess), form(), active"],
     )
